@@ -14,8 +14,9 @@ import dassh.mesh_functions as mf
 import dassh.region_rodded as rrm
 import dassh.region_unrodded as rum
 import dassh.core as cm
+import dassh.region as rgm
 
-MODS = [mf, rrm, rum, cm]
+MODS = [mf, rrm, rum, cm, rgm]
 
 
 def _sum(xs):
@@ -57,9 +58,27 @@ def _region_xbnds(env, n, h, tag, nduct=1):
     return rrm.RoddedRegion.calculate_xbnds(s), [P] * n + [2 * wc]
 
 
-def _unrodded_xbnds(env, h):
-    s = StubSelf(duct_ftf=[0.0, h])
-    return rum.SingleNodeHomogeneous.calculate_xbnds(s), [h]
+def _unrodded_xbnds(env, h, nduct=1, order=None):
+    """Boundaries of a low-fidelity region.  With nduct == 1 and no order: calculate_xbnds on a stub carrying the outer
+    wall.  Otherwise the real constructor runs on a symbolic flat-to-flat list (nduct walls, listed in the given order):
+    whatever it keeps, the boundaries must walk the outermost wall, the one the gap mesh is laid out on."""
+    if nduct == 1 and order is None:
+        s = StubSelf(duct_ftf=[0.0, h])
+        return rum.SingleNodeHomogeneous.calculate_xbnds(s), [h]
+    vals = []
+    prev = None
+    for i in range(2 * nduct - 1):
+        v = env.pos('unrodded_ftf%d' % i, hi=100)
+        if prev is not None:
+            env.assume(v > prev)
+        prev = v
+        vals.append(v)
+    env.assume(h > prev)
+    vals.append(h)
+    lst = [vals[i] for i in (order or range(2 * nduct))]
+    # (the six-node model calls the same constructor for these fields and inherits calculate_xbnds)
+    reg = rum.SingleNodeHomogeneous('ur', 0.0, 1.0, lst, 0.3, 1.0, None, None, None)
+    return reg.calculate_xbnds(), [h]
 
 
 def _gap_xbnds(env, sides, h):
@@ -103,7 +122,7 @@ def body_map(env):
             xr, wr = _region_xbnds(env, reg[1], h, 'region_', env.params.get('region_ducts', 1))
             wr = wr * 6
         else:
-            xr, _ = _unrodded_xbnds(env, h)
+            xr, _ = _unrodded_xbnds(env, h, env.params.get('region_ducts', 1), env.params.get('ftf_order'))
             wr = [h] * 6
         xg, wg = _gap_xbnds(env, sides, h)
         rel = env.params.get('rel')
@@ -183,6 +202,15 @@ def body_stored(env):
                   and bool(np.allclose(F, reg._map['gap2duct'], rtol=1e-12, atol=1e-14))
                   and bool(np.allclose(C, reg._map['duct2gap'], rtol=1e-12, atol=1e-14)))
             env.holds('assembly %d region %d carries the maps of its own position' % (a, k), ok, key='stored_map_of_another_position')
+            xr = np.asarray(reg.calculate_xbnds(), dtype=float)
+            env.holds('assembly %d region %d: the duct boundaries run once around the outer wall the gap mesh is laid out on' % (a, k),
+                      bool(abs(xr[-1] - 6 * r.core.duct_oftf / np.sqrt(3)) <= 1e-9 * abs(xr[-1]) and np.all(np.diff(xr) > 0)
+                           and xr[0] == 0.0), key='region_mesh_on_another_perimeter')
+            Fs, Cs = np.asarray(reg._map['gap2duct'], dtype=float), np.asarray(reg._map['duct2gap'], dtype=float)
+            ng = int(np.count_nonzero(Cs.sum(axis=1) > 0))
+            env.holds('assembly %d region %d: stored weights non-negative, uniform field reproduced' % (a, k),
+                      bool(np.all(Fs >= 0) and np.all(Cs >= 0) and np.allclose(Fs.sum(axis=1), 1.0, atol=1e-9)
+                           and np.allclose(Cs.sum(axis=1)[:ng], 1.0, atol=1e-9)), key='stored_map_not_a_weighted_mean')
             n += 1
     env.holds('every assembly has at least one region with maps', n >= len(r.assemblies))
 
@@ -209,7 +237,7 @@ def instances(tier):
                     inst.append(dict(label='map[region=%s,gap=%s,%s,no padding]' % ('-'.join(map(str, r)), ''.join(map(str, g)), rel),
                                      body=body_map, params={'region': r, 'gap': g, 'rel': rel, 'pad': 0}, max_paths=512, max_depth=400,
                                      timeout_ms=60000))
-    for l in ('two-a2-a3', 'three-a2-a3-ur', 'ring-no-centre', 'six-hole', 'seven-mixed', 'seven-alt', 'three-a3-dd-u6', 'three-a3-b3-a2'):
+    for l in ('two-a2-a3', 'three-a2-a3-ur', 'ring-no-centre', 'six-hole', 'seven-mixed', 'seven-alt', 'three-a3-dd-u6', 'three-a3-b3-a2', 'three-a2-du-d6'):
         inst.append(dict(label='stored-maps[%s]' % l, body=body_stored, params={'layout': l}, check_vacuity=False))
     # regions with two and three duct walls: the boundaries must describe the outermost wall
     for nd in ((2,) if tier == 'quick' else (2, 3)):
@@ -217,6 +245,14 @@ def instances(tier):
             inst.append(dict(label='map[region=%s,region ducts=%d,gap=%s%s]' % ('-'.join(map(str, r)), nd, ''.join(map(str, g)), ',' + rel if rel else ''),
                              body=body_map, params={'region': r, 'gap': g, 'rel': rel, 'region_ducts': nd}, max_paths=512, max_depth=400,
                              timeout_ms=60000))
+    # low-fidelity regions of assemblies with one to three duct walls, built by the real constructors from a symbolic
+    # flat-to-flat list (ascending and outer-wall-first)
+    for model in ('simple',):
+        for nd, order in ((1, (0, 1)), (2, (0, 1, 2, 3)), (2, (2, 3, 0, 1))) + (() if tier == 'quick' else ((3, (0, 1, 2, 3, 4, 5)), (3, (5, 4, 3, 2, 1, 0)))):
+            for g in ((0,) * 6, (2, 1, 0, 2, 1, 0)):
+                inst.append(dict(label='map[region=unrodded(%s) built from ftf list %s,gap=%s]' % (model, ''.join(map(str, order)), ''.join(map(str, g))),
+                                 body=body_map, params={'region': ('unrodded',), 'gap': g, 'rel': None, 'region_ducts': nd, 'ftf_order': order,
+                                                        'model': model}, max_paths=512, max_depth=400, timeout_ms=60000))
     return inst
 
 
